@@ -188,6 +188,9 @@ def mkq(q):
 
 
 # ----------------------------------------------------------------------------- building
+REV_KEYS = [False, False]      # [reverse now, a reversal happened]
+
+
 def build(s):
     k = s["k"]
     if k == "Count":
@@ -217,10 +220,15 @@ def build(s):
         return hg.Select(mkq(s["q"]), build(s["cut"]))
     if k == "Categorize":
         return hg.Categorize(mkq(s["q"]), build(s["value"]))
-    if k == "Label":
-        return hg.Label(**{kk: build(v) for kk, v in sorted(s["pairs"].items())})
-    if k == "UntypedLabel":
-        return hg.UntypedLabel(**{kk: build(v) for kk, v in sorted(s["pairs"].items())})
+    if k in ("Label", "UntypedLabel"):
+        # the model keeps the keys of a Label sorted (a Label is a map); the implementation keeps
+        # insertion order, which must not matter: every second "new" of a program inserts the keys
+        # in the opposite order (REV_KEYS), so that operands of + / += / == differ in it
+        items = sorted(s["pairs"].items())
+        if REV_KEYS[0] and len(items) > 1:
+            items.reverse()
+            REV_KEYS[1] = True
+        return getattr(hg, k)(**{kk: build(v) for kk, v in items})
     if k == "Index":
         return hg.Index(*[build(v) for v in s["values"]])
     if k == "Branch":
@@ -416,7 +424,13 @@ def compare_trees(a, b, exact=True):
                 return "item %d: key %r vs %r" % (i, x.k, y.k)
         elif isinstance(x, BK):
             if tok_bagkey(x.k, x.rng) != tok_bagkey(y.k, y.rng):
-                if exact or isinstance(x.k, str) or isinstance(y.k, str) or not close(float(x.k), float(y.k)):
+                def keyclose(p, q):
+                    if isinstance(p, (tuple, list)) and isinstance(q, (tuple, list)):
+                        return len(p) == len(q) and all(keyclose(u, v) for u, v in zip(p, q))
+                    if isinstance(p, (str, tuple, list)) or isinstance(q, (str, tuple, list)):
+                        return p == q
+                    return close(float(p), float(q))
+                if exact or not keyclose(x.k, y.k):
                     return "item %d: bag key %r vs %r" % (i, x.k, y.k)
         elif x != y:
             return "item %d: %r vs %r" % (i, x, y)
@@ -472,7 +486,14 @@ class Machine:
         t = op[0]
         p = self.pool
         if t == "new":
-            a = build(op[1])
+            self._news = getattr(self, "_news", 0) + 1
+            REV_KEYS[0] = (self._news % 2 == 0) and not getattr(self, "norev", False)
+            REV_KEYS[1] = False
+            try:
+                a = build(op[1])
+            finally:
+                REV_KEYS[0] = False
+                self.rev_used = getattr(self, "rev_used", False) or REV_KEYS[1]
             p.append(a)
             return [0] + snap(a)
         if t == "fill":
@@ -940,6 +961,13 @@ class IdMachine(Machine):
             parent = get_path(h, op[3][:-1])
             set_fixed_child(parent, op[3][-1], obj)
             ob = [0] + snap(h) + [-777] + self.pids()
+        elif op[0] == "graft":
+            # a new collection built (public constructor) over an existing, possibly already filled
+            # and checked, tree and one of its inner nodes: the constructor keeps the objects
+            h = self.pool[op[1]]
+            root = hg.Branch(h, get_path(h, op[2]))
+            self.pool.append(root)
+            ob = [0] + snap(root) + [-777] + self.pids()
         else:
             ob = super().step(op)
             if op[0] == "hash":
